@@ -185,11 +185,12 @@ const (
 )
 
 type sentSeg struct {
-	seq   uint32
-	n     int
-	at    time.Duration
-	flags uint8
-	rtx   bool // the stack had sent this sequence range before
+	seq          uint32
+	n            int
+	at           time.Duration
+	flags        uint8
+	rtx          bool // the stack had sent this sequence range before
+	ackTriggered bool // emitted while an ACK (not a timer) was being processed
 }
 
 type rawRun struct {
@@ -261,6 +262,13 @@ type rawRun struct {
 	silentLeft             int
 	dupForUna              map[uint32]int // duplicate ACKs delivered per sndUna value
 	lastRTOat              time.Duration
+	eEdge                  uint32 // highest right edge over all emitted segments
+	haveEEdge              bool
+	emitSeen               int // frames of w.All already passed to onEmit
+	frDone                 bool
+	inTimerStep            bool
+	silentEmits            int
+	rtxTimes               []time.Duration
 	drain                  bool // stall mode: the application has started reading
 	maxUnread              int
 	hiRtx                  uint32 // highest sequence sent before the last timeout/recovery (RFC 6582 "recover")
@@ -348,6 +356,7 @@ func (x *rawRun) sendAck(ack uint32, wnd int, sack []ref.SACKBlock) {
 	}
 	isDup := x.haveAdv && ack == x.advAck
 	x.r.SendTCP(peerPort, x.sPort, x.pSndNxt, ack, ref.ACK, uint16(wnd), x.segOpts(sack), nil)
+	x.firstAckDelivered = true // any ACK of the data phase, duplicate or not, ends the initial-window phase
 	if !x.haveAdv || ref.SeqLT(x.maxEdge, edge) {
 		x.maxEdge = edge
 	}
@@ -370,6 +379,32 @@ func (x *rawRun) sendAck(ack uint32, wnd int, sack []ref.SACKBlock) {
 	}
 	x.advEdge = edge
 	x.haveAdv = true
+	// C05 (1): the third duplicate ACK must be answered, in the same step, by a
+	// retransmission of the earliest unacknowledged segment (first loss episode only: RFC 6582
+	// forbids a second fast retransmit inside one episode, and after a timeout the
+	// duplicate-ACK counter restarts).
+	before := len(x.sent)
+	x.scanEmitted()
+	if isDup && x.has('r') && x.dupForUna[ack] == 3 && !x.frDone && x.timeoutsFired == 0 {
+		outstanding := false
+		for _, sg := range x.sent[:before] {
+			if sg.seq == ack && sg.n > 0 {
+				outstanding = true
+			}
+		}
+		if outstanding {
+			x.frDone = true
+			found := false
+			for _, sg := range x.sent[before:] {
+				if sg.seq == ack && sg.n > 0 {
+					found = true
+				}
+			}
+			if !found {
+				x.fail("C05", "no-fast-retransmit", "no-fast-retransmit", "three duplicate ACKs for seq+%d were delivered but the segment was not retransmitted at once (segments emitted in that step: %d)", ack-x.sIss, len(x.sent)-before)
+			}
+		}
+	}
 }
 
 func newRawRun(cfg RawCfg, prefix []int) *rawRun {
@@ -512,8 +547,9 @@ func (x *rawRun) mssLimit(optLen int) int {
 	return lim
 }
 
-// onStackFrame is the peer's reference receiver + every per-segment oracle.
-func (x *rawRun) onStackFrame(d *Decoded) {
+// onEmit runs the emission-time oracles on a segment the stack has just put on the wire
+// (C01 wire consistency, C04 window/MSS/MTU, C05 timing and congestion bookkeeping).
+func (x *rawRun) onEmit(d *Decoded) {
 	if d == nil || d.TCP == nil {
 		return
 	}
@@ -528,21 +564,18 @@ func (x *rawRun) onStackFrame(d *Decoded) {
 	// --- C04 receive side: the stack's advertised right edge never moves left
 	if t.Flags&ref.ACK != 0 && t.Flags&ref.SYN == 0 {
 		edge := t.Ack + uint32(t.Window)<<x.stackShift()
-		if x.haveSEdge && ref.SeqLT(edge, x.sEdge) && x.has('w') {
-			retreat := x.sEdge - edge
+		if x.haveEEdge && ref.SeqLT(edge, x.eEdge) && x.has('w') {
+			retreat := x.eEdge - edge
 			key := "own-edge-retreat"
 			if x.stackShift() > 0 && retreat < 1<<x.stackShift() {
 				key = "own-edge-retreat-below-scale-unit"
 			}
-			x.fail("C04", "advertised-edge-retreats", key, "the stack's advertised right edge moved left by %d: previous ack+wnd = %d, now ack %d + (wnd %d << %d) = %d", retreat, x.sEdge-x.sIssPeerBase(), t.Ack-x.sIssPeerBase(), t.Window, x.stackShift(), edge-x.sIssPeerBase())
+			x.fail("C04", "advertised-edge-retreats", key, "the stack's advertised right edge moved left by %d: previous ack+wnd = %d, now ack %d + (wnd %d << %d) = %d", retreat, x.eEdge-x.sIssPeerBase(), t.Ack-x.sIssPeerBase(), t.Window, x.stackShift(), edge-x.sIssPeerBase())
 		}
-		if !x.haveSEdge || ref.SeqLT(x.sEdge, edge) {
-			x.sEdge = edge
+		if !x.haveEEdge || ref.SeqLT(x.eEdge, edge) {
+			x.eEdge = edge
 		}
-		x.haveSEdge = true
-		if ref.SeqLT(x.pAcked, t.Ack) || x.pAcked == 0 {
-			x.pAcked = t.Ack
-		}
+		x.haveEEdge = true
 	}
 	if n == 0 && t.Flags&ref.FIN == 0 {
 		return
@@ -599,7 +632,36 @@ func (x *rawRun) onStackFrame(d *Decoded) {
 		if x.has('r') {
 			x.checkRecovery(seq, n, d.F.At, rtx)
 		}
-		x.sent = append(x.sent, sentSeg{seq: seq, n: n, at: d.F.At, flags: t.Flags, rtx: rtx})
+		x.sent = append(x.sent, sentSeg{seq: seq, n: n, at: d.F.At, flags: t.Flags, rtx: rtx, ackTriggered: !x.inTimerStep})
+	}
+}
+
+// onStackFrame is the peer's reference receiver: called when a frame is delivered to the peer.
+func (x *rawRun) onStackFrame(d *Decoded) {
+	if d == nil || d.TCP == nil {
+		return
+	}
+	t := d.TCP
+	if t.Opts.HasTS {
+		x.lastTSVal = t.Opts.TSVal
+	}
+	if t.Flags&ref.RST != 0 {
+		return
+	}
+	n := len(t.Payload)
+	seq := t.Seq
+	if t.Flags&ref.ACK != 0 && t.Flags&ref.SYN == 0 {
+		edge := t.Ack + uint32(t.Window)<<x.stackShift()
+		if !x.haveSEdge || ref.SeqLT(x.sEdge, edge) {
+			x.sEdge = edge
+		}
+		x.haveSEdge = true
+		if ref.SeqLT(x.pAcked, t.Ack) || x.pAcked == 0 {
+			x.pAcked = t.Ack
+		}
+	}
+	if n == 0 && t.Flags&ref.FIN == 0 {
+		return
 	}
 	// reference receiver
 	if t.Flags&ref.FIN != 0 && seq+uint32(n) == x.rcvNxt+uint32(boolInt(seq == x.rcvNxt)*n) {
@@ -640,6 +702,26 @@ func (x *rawRun) onStackFrame(d *Decoded) {
 	}
 }
 
+// scanEmitted passes every frame emitted since the last call to the emission-time oracles.
+func (x *rawRun) scanEmitted() {
+	x.r.w.mu.Lock()
+	frames := append([]*Frame(nil), x.r.w.All[x.emitSeen:]...)
+	x.emitSeen = len(x.r.w.All)
+	x.r.w.mu.Unlock()
+	for _, f := range frames {
+		d, err := DecodeFrame(f)
+		if err != nil {
+			if x.r.MonErr == nil {
+				x.r.MonErr = fmt.Errorf("frame #%d: %v (bytes %x)", f.Seq, err, f.Data)
+			}
+			continue
+		}
+		if d.TCP != nil && x.established {
+			x.onEmit(d)
+		}
+	}
+}
+
 func boolInt(b bool) int {
 	if b {
 		return 1
@@ -672,13 +754,15 @@ func (x *rawRun) checkRecovery(seq uint32, n int, at time.Duration, rtx bool) {
 				prev = &x.sent[i]
 			}
 		}
-		fast := x.dupForUna[seq] >= 3 && seq == x.advAck
-		if prev != nil && !fast && at-prev.at < 200*time.Millisecond {
+		// a retransmission emitted while a timer fires is timeout-based; one emitted while an
+		// ACK from the peer is being processed is ACK-triggered (fast retransmit, NewReno
+		// partial-ACK retransmit) and exempt from the 200 ms rule
+		if prev != nil && x.inTimerStep && at-prev.at < 200*time.Millisecond {
 			key := "rto-too-early"
-			if prev.rtx && x.dupForUna[seq] >= 3 {
+			if prev.rtx && prev.ackTriggered {
 				key = "rto-too-early-after-fast-retransmit"
 			}
-			x.fail("C05", "early-retransmission", key, "segment seq+%d retransmitted by timeout %v after its previous transmission (minimum 200ms); duplicate ACKs seen for it: %d", seq-x.sIss, at-prev.at, x.dupForUna[seq])
+			x.fail("C05", "early-retransmission", key, "segment seq+%d retransmitted by timeout %v after its previous transmission (minimum 200ms); previous transmission was ACK-triggered: %v; duplicate ACKs seen for it: %d", seq-x.sIss, at-prev.at, prev.ackTriggered, x.dupForUna[seq])
 		}
 	}
 	// (4) Reno: segments in flight <= 10 + segments acked + dup acks delivered
@@ -779,7 +863,11 @@ func (x *rawRun) deliverMenu(d *Decoded, f *Frame) []action {
 		return m
 	}
 	if x.silentLeft > 0 {
-		m = append(m, action{name: "peer ignores (silent) " + name, do: func() {}})
+		m = append(m, action{name: "peer ignores (silent) " + name, do: func() {
+			if len(x.rtxTimes) == 0 && t.Seq == x.advAck {
+				x.rtxTimes = append(x.rtxTimes, f.At)
+			}
+		}})
 		return m
 	}
 	m = append(m, action{name: "peer gets " + name + ", acks all", do: func() {
@@ -903,7 +991,15 @@ func (x *rawRun) menu() []action {
 			m = append(m, action{name: "app-first " + a.name, cost: 1, do: a.do})
 		}
 		if x.dev('t') && len(timers) > 0 && !horizon {
-			m = append(m, action{name: "early timer", cost: 1, do: func() { x.earlyTimer = true; x.timeoutsFired++; vtime.FireNext() }})
+			m = append(m, action{name: "early timer", cost: 1, do: func() {
+				x.earlyTimer = true
+				x.timeoutsFired++
+				x.inTimerStep = true
+				vtime.FireNext()
+				x.r.w.Settle()
+				x.scanEmitted()
+				x.inTimerStep = false
+			}})
 		}
 	case len(apps) > 0:
 		m = append(m, apps[0])
@@ -957,10 +1053,32 @@ func (x *rawRun) menu() []action {
 	case len(timers) > 0 && !horizon:
 		m = append(m, action{name: fmt.Sprintf("timer(+%v)", timers[0]), do: func() {
 			x.timeoutsFired++
-			if x.silentLeft > 0 {
-				x.silentLeft--
-			}
+			silent := x.silentLeft > 0
+			before := len(x.sent)
+			x.inTimerStep = true
 			vtime.FireNext()
+			x.r.w.Settle()
+			x.scanEmitted()
+			x.inTimerStep = false
+			emitted := x.sent[before:]
+			if silent && x.has('r') {
+				if len(emitted) > 1 {
+					x.fail("C05", "burst-on-timeout", "burst-on-timeout", "%d data segments were sent on one retransmission timeout while the peer is silent (exactly one allowed)", len(emitted))
+				}
+				if len(emitted) == 1 {
+					x.silentLeft--
+					x.rtxTimes = append(x.rtxTimes, emitted[0].at)
+					if emitted[0].seq != x.advAck {
+						x.fail("C05", "timeout-wrong-segment", "timeout-wrong-segment", "the timeout retransmitted seq+%d, the earliest unacknowledged segment is seq+%d", emitted[0].seq-x.sIss, x.advAck-x.sIss)
+					}
+					if k := len(x.rtxTimes); k >= 3 {
+						d1, d2 := x.rtxTimes[k-2]-x.rtxTimes[k-3], x.rtxTimes[k-1]-x.rtxTimes[k-2]
+						if d2 < 2*d1 && d2 < 60*time.Second {
+							x.fail("C05", "rto-not-doubling", "rto-not-doubling", "successive timeout intervals %v then %v: the retransmission timeout did not at least double", d1, d2)
+						}
+					}
+				}
+			}
 		}})
 	}
 	return m
@@ -985,6 +1103,7 @@ func (x *rawRun) room() int {
 }
 
 func (x *rawRun) afterStep() {
+	x.scanEmitted()
 	if x.has('w') && x.pAcked != 0 {
 		if un := int(x.pAcked-x.cfg.PeerISS-1) - len(x.got); un > x.maxUnread {
 			x.maxUnread = un
